@@ -685,13 +685,17 @@ func (m *Monitor) checkC17(g *Gen, w []string, out string, b, a *snapshot) {
 	case "delegate", "delegatek":
 		// delegate chain val orch eth signedBy signedVal signedNonce accSeq
 		chain, val, orch, eth := w[1], w[2], w[3], w[4]
+		if gethcommon.IsHexAddress(eth) {
+			eth = gethcommon.HexToAddress(eth).Hex() // the message may spell the address differently; the registry stores the address
+		}
 		seq, _ := strconv.ParseUint(w[8], 10, 64)
 		nonce, _ := strconv.ParseUint(w[7], 10, 64)
 		wantNonce := uint64(0)
 		if seq > 0 {
 			wantNonce = seq - 1
 		}
-		sigOK := w[5] == eth && w[6] == val && nonce == wantNonce
+		sameAddr := w[5] == eth || (gethcommon.IsHexAddress(w[5]) && gethcommon.IsHexAddress(eth) && gethcommon.HexToAddress(w[5]) == gethcommon.HexToAddress(eth))
+		sigOK := sameAddr && w[6] == val && nonce == wantNonce
 		known := false
 		for _, v := range g.env.staking.vals {
 			if fmt.Sprintf("%x", []byte(v.addr)) == val {
